@@ -1469,6 +1469,63 @@ STCH_RULE = ("fonts with the `stch` feature (synthetic, tools/flagslib.py::stch_
              "a cased letter (not word category) x direction r (3 in 4) / forced l x levels 0/1; ")
 
 
+# hook level: the real apply_stch on an injected buffer (`stch` request, harness/src/ops/stch.rs) vs the Lean model Stch.lean
+
+def stch_prim_groups(r, nfonts, per_font):
+    """request groups: a font that only fixes the advances of 12 glyphs, then buffers in BUFFER order: tile runs of 1-5 glyphs
+    (fixed / repeating by component parity, sometimes all of one kind), words of 0-4 word-category / default-ignorable glyphs
+    with advances 0..800 (rarely negative), non-word glyphs; clusters monotone in the buffer's direction (1 in 6: unordered),
+    masks with random flag and feature bits, levels 0-2, right-to-left and left-to-right buffers"""
+    groups = []
+    for f in range(nfonts):
+        n = 12
+        adv = [0] + [r.choice([0, 30, 60, 100, 150, 300, r.range(1, 700)]) for _ in range(n - 1)]
+        fid = f"ST{f}"
+        lines = [f"font {fid} " + fontbuild.hexfont({"num_glyphs": n, "cmap": {0x41: 1}, "advances": adv})]
+        for _ in range(per_font):
+            chars = []                        # logical order: (glyphs of one character)
+            for _ in range(r.range(1, 4)):
+                k = r.below(8)
+                if k < 4:
+                    nt = r.range(1, 5)
+                    mode = r.choice([0, 0, 0, 1, 2, 3])
+                    acts = [(2 if j % 2 else 1) if mode == 0 else (1 if mode == 1 else 2 if mode == 2 else r.range(1, 2)) for j in range(nt)]
+                    chars.append([(r.range(1, n - 1), a, 0, 0) for a in acts])
+                    for _ in range(r.range(0, 4)):
+                        chars.append([(r.range(1, n - 1), 0, r.choice([1, 1, 1, 2]),
+                                       r.choice([0, r.range(0, 800), r.range(0, 800), -r.range(1, 200) if r.chance(1, 8) else r.range(100, 400)]))])
+                elif k < 6:
+                    chars.append([(r.range(1, n - 1), 0, 0, r.range(0, 600))])
+                else:
+                    chars.append([(r.range(1, n - 1), 0, r.choice([1, 2]), r.range(0, 600))])
+            cl, c = [], r.below(3)
+            for _ in chars:
+                cl.append(c); c += r.choice([1, 1, 2, 0] if r.chance(1, 5) else [1, 1, 2])
+            if r.chance(1, 6):
+                cl = r.shuffle(cl)
+            rtl = r.chance(2, 3)
+            level = r.choice([0, 0, 1, 1, 2])
+            glyphs = []
+            for ch, c in zip(chars, cl):
+                for (g, a, kind, ad) in ch:
+                    m = r.choice([0, 0, 0, 1, 2, 3, 4, 7]) | (r.choice([0, 0x100, 0x80000000]))
+                    glyphs.append(f"{g}:{c}:{m}:{a}:{kind}:{ad}:{adv[g]}")
+            if rtl:
+                glyphs = glyphs[::-1]
+            lines.append(f"stch {fid} {1 if rtl else 0} {level} " + " ".join(glyphs))
+        groups.append(lines)
+    return groups
+
+
+def classify_stch(ln, out):
+    t = ln.split()
+    items = [x.split(":") for x in t[4:]]
+    ks = [f"dir:{'rtl' if t[2] == '1' else 'ltr'}", f"level:{t[3]}", "ok" if out.startswith("ok") else "other"]
+    if any(x[3] != "0" for x in items): ks.append("has-tiles")
+    if out.startswith("ok") and len(out.split()) - 1 > len(items): ks.append("tiles-repeated")
+    return ks
+
+
 # ------------------------------------------------------------------------------------------------
 # U+2044 FRACTION SLASH: ot_shape.rs::setup_masks_fraction turns <digits> U+2044 <digits> into numerator / fraction /
 # denominator feature ranges.  Whether a digit is shaped as part of a fraction depends on what stands on the other
